@@ -242,12 +242,15 @@ def run(ctx):
         # fast seeded sub-population: reactions with <= 40 atoms (decided from the input), 70 of them drawn by ctx.rnd
         small = [(rid, rs) for rid, rs in inside if infos[rid]["n_atoms"] <= 40]
         chosen = ctx.rnd.sample(small, min(70, len(small)))
+        # the hand-written ring rearrangements (an unchanged bond between two centre atoms of one centre
+        # component: only a monomorphic, not an induced, match regenerates them) always take part
+        chosen += [x for x in small if x[0].startswith("ring:") and x not in chosen]
         kinds = ["identity", "renumber", "rewrite"]
     else:
         chosen = inside
         kinds = ["identity", "renumber", "renumber", "rewrite", "both"]
     ctx.gen_rule = (
-        "regress/C04 first; then corpus/c04_reactions.txt (ecoli 274, USPTO 100, hydro 50; vendored) restricted to the precondition "
+        "regress/C04 first; then corpus/c04_reactions.txt (ecoli 274, USPTO 100, hydro 50, 6 hand-written small-ring rearrangements; vendored) restricted to the precondition "
         f"({len(inside)} reactions); {'a ctx.rnd sample of 70 with <=40 atoms' if quick else 'all of them'} x variants {kinds} "
         "(random atom-map permutation; random SMILES atom order + fragment shuffle) x template {centre, full ITS} x {forward, backward} "
         f"x strategy {{all, comp, bt}}; per-run time-out {timeout}s (skipped, counted, never reported).")
